@@ -4,6 +4,7 @@ write seeded/RESULTS.json (which obligations fail).  /repo must be clean."""
 import json, os, subprocess, sys, glob, re
 V = os.path.dirname(os.path.dirname(os.path.abspath(__file__)))
 only = sys.argv[1:]
+REPO = os.environ.get("VERIF_REPO", "/repo")
 res = {}
 try:
     res = json.load(open(os.path.join(V, "seeded", "RESULTS.json")))
@@ -14,14 +15,14 @@ for d in sorted(glob.glob(os.path.join(V, "seeded", "*", "meta.json"))):
     sid = meta["id"]
     if only and not any(o in sid for o in only): continue
     patch = os.path.join(os.path.dirname(d), "patch.diff")
-    if subprocess.run(["git", "-C", "/repo", "status", "--porcelain", "--untracked-files=no"], capture_output=True, text=True).stdout.strip():
+    if subprocess.run(["git", "-C", REPO, "status", "--porcelain", "--untracked-files=no"], capture_output=True, text=True).stdout.strip():
         print("repo not clean"); sys.exit(3)
-    if subprocess.run(["git", "-C", "/repo", "apply", patch]).returncode != 0:
+    if subprocess.run(["git", "-C", REPO, "apply", patch]).returncode != 0:
         res[sid] = {"exit": None, "note": "patch does not apply"}; continue
     try:
         p = subprocess.run([os.path.join(V, "check"), meta["property"], "--tier", "quick"], cwd=V, capture_output=True, text=True)
     finally:
-        subprocess.run(["git", "-C", "/repo", "checkout", "--", "."])
+        subprocess.run(["git", "-C", REPO, "checkout", "--", "."])
     lines = [l for l in p.stdout.split("\n") if re.search(r"VIOLATION|UNDECIDED|failed obligation|^OK|KNOWN", l)]
     res[sid] = {"property": meta["property"], "exit": p.returncode,
                 "verdict": "detected" if p.returncode == 1 else ("undecided" if p.returncode == 2 else "missed"),
